@@ -10,6 +10,7 @@ def _as_int(v):
 class Adapter(EnvAdapter):
     name = "Tetris"
     props = ("C01", "C03", "C04", "C05", "C07", "C09", "C10", "C11", "C12")
+    gen_heavy = {'r4c4_t3': (60, 300)}
     # score / reward are floats that only ever hold integers (sums of REWARD_LIST entries)
     state_overrides = {"score": _as_int, "reward": _as_int}
 
